@@ -13,7 +13,7 @@ RULE = (
     "UnitsError/TypeError/ValueError and return nothing, operands' deep snapshots unchanged. (b) cross-type unit pairs "
     "(all 2.36 M ordered pairs in thorough for db.Convert, a rotation-selected subset in quick; the object routes "
     "Scalar.GetValue/CreateCopy, Array.GetValues/CreateCopy (list, ndarray), FixedArray.IndexAsScalar/ChangingIndex, "
-    "FractionScalar.GetValue, Quantity.Convert/ConvertScalarValue, db.Convert by category name and on containers on a "
+    "FractionScalar.GetValue, Quantity.Convert/ConvertScalarValue (also on a squared derived quantity), db.Convert by category name, on containers, in the exponent-list form with exponents 1, 2, -1, 3 and with the amounts 0, -0.0, [0, 0] and [] on a "
     "subset; targets also written in their legacy spellings; each pair is first offered to the exempt 'Unknown' quantity "
     "type, and a pair that is valid for its own type is converted there and then offered under other quantity types) must raise. (c) (category, unit) pairs of different quantity types (all 501 k in thorough for "
     "ObtainQuantity, a subset for Scalar/Array/FixedArray/FractionScalar construction in every argument order) must "
@@ -143,6 +143,20 @@ class Sweep:
             ("db.Convert(tuple)", lambda: db.Convert(qt, u, v, (x,))),
             ("db.Convert(ndarray)", lambda: db.Convert(qt, u, v, numpy.array([x, 2.0]))),
             ("db.Convert(exponent form)", lambda: db.Convert(qt, [(u, 1)], [(v, 1)], x)),
+            ("db.Convert(exponent form, squared)", lambda: db.Convert(qt, [(u, 2)], [(v, 2)], x)),
+            ("db.Convert(exponent form, reciprocal)", lambda: db.Convert(qt, [(u, -1)], [(v, -1)], x)),
+            # the amount zero (and an empty container) is an amount like any other: the units are checked all the same
+            ("db.Convert(zero)", lambda: db.Convert(qt, u, v, 0.0)),
+            ("db.Convert(int zero)", lambda: db.Convert(c, u, v, 0)),
+            ("db.Convert(list of zeros)", lambda: db.Convert(qt, u, v, [0.0, 0.0])),
+            ("db.Convert(empty list)", lambda: db.Convert(qt, u, v, [])),
+            ("db.Convert(exponent form, squared, zero)", lambda: db.Convert(qt, [(u, 2)], [(v, 2)], 0.0)),
+            ("db.Convert(exponent form, cubed, negative zero)", lambda: db.Convert(qt, [(u, 3)], [(v, 3)], -0.0)),
+            ("derived Quantity.Convert(squared)", lambda: (Scalar(x, u, c) * Scalar(1.0, u, c)).GetQuantity().Convert(x, [(v, 2)])),
+            ("derived Quantity.Convert(squared, zero)", lambda: (Scalar(0.0, u, c) * Scalar(1.0, u, c)).GetQuantity().Convert(0.0, [(v, 2)])),
+            ("Scalar.GetValue(zero)", lambda: Scalar(0.0, u, c).GetValue(v)),
+            ("Array.GetValues(zeros)", lambda: Array([0.0, 0.0], u, c).GetValues(v)),
+            ("Array.GetValues(empty)", lambda: Array([], u, c).GetValues(v)),
             ("Scalar.GetValue", lambda: Scalar(x, u, c).GetValue(v)),
             ("Scalar.CreateCopy(unit)", lambda: Scalar(x, u, c).CreateCopy(unit=v)),
             ("Scalar.CreateCopy(value,unit)", lambda: Scalar(x, u, c).CreateCopy(2.0, v)),
